@@ -119,6 +119,8 @@ class Sim:
         self.decide_gate = None  # optional callback(conn, ev) -> decision string (scheduler hook)
         self.inbox = []          # gate messages received but not yet handled
         self.tainted = False     # a stimulus was applied since the last poll was issued
+        self.read_budget = {"l": None, "r": None}   # bytes the playing spawner may still read from its command pipe (None = eager)
+        self.small_cmd_pipe = False                  # one-page command pipes: a slow spawner makes the daemon's writes partial
         self.after_signal = False
         self.scheduler = None    # object with pick(sim, held) -> (conn, decision); holds every gated m-call
         self.held = []           # conns whose pending call waits for the scheduler
@@ -165,7 +167,7 @@ class Sim:
         return self.b.env(self.home, e)
 
     def emit(self, kind, **kw):
-        if kind in ("report", "rawreport", "inject", "signal", "clock", "spawner-eof", "start"):
+        if kind in ("report", "rawreport", "inject", "signal", "clock", "spawner-eof", "start", "spawner-read"):
             self.tainted = True
         self.seq += 1
         ev = dict(kw, kind=kind, seq=self.seq, vt=self.clock.now() - shim.T0)
@@ -227,6 +229,12 @@ class Sim:
             P[n] = (-1, P[n][1]) if i == 0 else (P[n][0], -1)
         for n in ("log", "lcmd", "rcmd"):
             fcntl.fcntl(P[n][0], fcntl.F_SETFL, os.O_NONBLOCK)
+        if self.small_cmd_pipe:
+            for n in ("lcmd", "rcmd"):
+                try:
+                    fcntl.fcntl(P[n][0], 1031, 4096)            # F_SETPIPE_SZ: one page
+                except OSError:
+                    pass
         for n in ("lrep", "rrep"):
             # reports are written while the daemon is held at its select: everything a scenario writes between two
             # quiescent points must fit the pipe, or the controller would block for ever (bursts of long failure
@@ -472,14 +480,21 @@ class Sim:
         for key, name in (("l", "lcmd"), ("r", "rcmd")):
             try:
                 while True:
-                    d = os.read(self.P[name][0], 65536)
+                    want = 65536
+                    if self.read_budget[key] is not None:
+                        want = min(want, self.read_budget[key])
+                        if want <= 0:
+                            break
+                    d = os.read(self.P[name][0], want)
                     if not d:
                         break
+                    if self.read_budget[key] is not None:
+                        self.read_budget[key] -= len(d)
                     self.cmdbuf[key] += d
             except (BlockingIOError, OSError):
                 pass
             buf = self.cmdbuf[key]
-            while buf.count(b"\0") >= 3:
+            while buf[1:].count(b"\0") >= 3:        # (the delivery number itself may be a zero byte)
                 dn = buf[0]
                 mid, snd, rcp, rest = buf[1:].split(b"\0", 3)
                 buf = rest
@@ -681,6 +696,22 @@ class Sim:
             # the select that follows is a new one, not the interrupted one: if it asks for a positive timeout and nothing is
             # readable, the daemon really goes to sleep for that long (see run_until_quiescent)
             self.after_signal = True
+
+    def unread_commands(self, chan):
+        """bytes waiting in the command pipe of a channel (the playing spawner has not read them yet)"""
+        import array, termios
+        a = array.array("i", [0])
+        try:
+            fcntl.ioctl(self.P["lcmd" if chan == "l" else "rcmd"][0], termios.FIONREAD, a)
+        except OSError:
+            return 0
+        return a[0]
+
+    def feed_spawner(self, chan, nbytes):
+        """(scenario) a slow spawner reads up to nbytes more of its command pipe"""
+        self.read_budget[chan] = (self.read_budget[chan] or 0) + nbytes
+        self.emit("spawner-read", chan=chan, n=nbytes)
+        self._drain()
 
     def signal_late(self, name):
         """(scenario) the signal reaches the daemon just after its next select has returned, i.e. while it is NOT inside
